@@ -1281,7 +1281,13 @@ pub fn main(cases: &'static [Case]) -> ! {
     }
     let t0 = now();
     let seed = cli.seed;
-    let mut stats = run_parallel(&cli, NAMES, |run, st| {
+    let describe = |run: u64| -> Option<Violation> {
+        let mut rng = Rng::for_run(seed, ENGINE_ID, 0, run);
+        let case = &cases[rng.usize_below(cases.len())];
+        let (ops, _) = gen_ops(&mut rng, case.n);
+        Some(Violation { oracle: String::new(), signature: String::new(), run, case: case.name.to_string(), script: ops.iter().map(|o| o.line()).collect(), expected: String::new(), observed: String::new() })
+    };
+    let mut stats = run_parallel(&cli, "C05", NAMES, &describe, |run, st| {
         let mut rng = Rng::for_run(seed, ENGINE_ID, 0, run);
         let case = &cases[rng.usize_below(cases.len())];
         let (ops, jumped) = gen_ops(&mut rng, case.n);
